@@ -581,6 +581,32 @@ def handlerCore (fn : String) : Option Handler :=
       oracle := fun a o => match run pEpa2 a with
         | some A => epa2Oracle A o
         | none => "skip bad-args" }
+  | "epa2c" => some {
+      model := fun a => run (do
+        let A ← pEpa2
+        let pts := A.pts.map fun (o1, o2) => CSOPoint2.new o1 o2
+        pure (match contactFromEpa2 A.pos12 (epaSupp1 A.k1 A.a1 A.b1) (epaSupp2 A.k2 A.a2 A.b2 A.pos12) 128 pts with
+          | some (some c) => s!"some {fv2 c.point1} {fv2 c.point2} {fv2 c.normal1} {fv2 c.normal2} {ff c.dist}"
+          | some none => "none"
+          | none => "panic")) a
+      oracle := fun a o => match run pEpa2 a with
+        | some A =>
+          (match o with
+          | ["none"] => epa2Oracle A o
+          | "some" :: rest =>
+            withOut (do let p1 ← pov2; let p2 ← pov2; let n1 ← pov2; let n2 ← pov2; let d ← pfo; pure (p1, p2, n1, n2, d)) rest
+              fun (p1, p2, n1, n2, d) =>
+                let M := qiso2 A.pos12
+                let (P1, P2, N1, N2, D) := (q2 p1, q2 p2, q2 n1, q2 n2, q d)
+                let scale : Rat := 1 + q A.a1 + q A.b1 + q A.a2 + q A.b2 + vmag2 M.t
+                let P2w := M.act P2
+                let t9 : Rat := (1 / 1000000000) * scale
+                if A.pts.length = 1 then epa2Oracle A [ff p1.x, ff p1.y, ff (A.pos12.act p2).x, ff (A.pos12.act p2).y, ff n1.x, ff n1.y]
+                else if vmag2 ((M.rot N2).add N1) > t9 then "fail normal2-is-not-minus-normal1-in-the-frame-of-shape-1"
+                else if rabs (D - (P2w.sub P1).dot N1) > t9 then "fail dist-is-not-(p2-p1).n1"
+                else epa2Oracle A [ff p1.x, ff p1.y, ff (A.pos12.act p2).x, ff (A.pos12.act p2).y, ff n1.x, ff n1.y]
+          | _ => "fail unparsable-output")
+        | none => "skip bad-args" }
   | _ => none
 
 /-- every C02 oracle starts with the totality clause (`fail non-finite-output …`, see `C03.guardFinite`) -/
